@@ -43,10 +43,30 @@ def run(ctx):
         traces = [ctx.replay]
     else:
         t1 = os.path.join(ctx.work, "roundtrips.ndjson")
-        lib.run_driver(exe, ["rt", t1, 480 if q else 4800, 0 if q else 1], env=env, timeout=900)
+        lib.run_driver(exe, ["rt", t1, 640 if q else 4800, 0 if q else 1], env=env, timeout=900)
         t2 = os.path.join(ctx.work, "truncations.ndjson")
         lib.run_driver(exe, ["trunc", t2, 0 if q else 1], env=env, timeout=900)
         traces = [t1, t2]
+        if not q:
+            # a second seeded family, and a pass with the ASan/UBSan-instrumented STIR libraries: a sanitizer
+            # report inside write_to_file / read_from_file is a violation (memory safety of the IO path).
+            t3 = os.path.join(ctx.work, "roundtrips-b.ndjson")
+            lib.run_driver(exe, ["rt", t3, 2400, 1], env={"VERIF_SEED": str(ctx.seed + 1000)}, timeout=900)
+            traces.append(t3)
+            exe_san = lib.build_driver("c10_imageio", santree=True)
+            # while the overflow in stir::round is open (known finding C10-roundint; UBSan stops at it) the pass
+            # leaves out the three types wider than int
+            stage = 2 if any(k["id"] == "C10-roundint" for k in ctx.known) else 0
+            for mode, args, name in (("rt", [700, stage], "san-roundtrips.ndjson"), ("trunc", [stage], "san-truncations.ndjson")):
+                tp = os.path.join(ctx.work, name)
+                rc, out = lib.run_driver(exe_san, [mode, tp] + args, env=dict(env, VERIF_STDERR="1"), timeout=1200, allow_fail=True)
+                rep = [l for l in out.splitlines() if "runtime error:" in l or "ERROR: AddressSanitizer" in l or "ERROR: LeakSanitizer" in l]
+                if rc in (77, 78) or rep:
+                    ctx.violation("sanitizer report in the image IO path: %s" % (rep[0][:200] if rep else "exit %d" % rc), tp)
+                elif rc != 0:
+                    raise lib.ModelFailure("sanitized driver failed rc=%d:\n%s" % (rc, out[-2000:]))
+                traces.append(tp)
+            ctx.notes.append("sanitizer pass (ASan/UBSan STIR libraries): %s" % ("without UINT/LONG/ULONG (C10-roundint open)" if stage == 2 else "all types"))
     # 3. validate (chunks in parallel; every case starts with its own Env line)
     chunks = []
     for t in traces:
